@@ -112,6 +112,10 @@ def plan(tier, seed):
         {'tag': 'q', 'indent': 2, 'children': [{'interp': {'pipe': [L(4), L(5)]}}]}, 'B']}
     jobs.append({'prog': two, 'vars': [[k, 'out', k] for k in (0, 1, 2)] + [[4, 'out', 4]]
                  if quick else [[k, 'out', k] for k in range(6)], 'label': 'two-sites'})
+    # an element that is replaced never evaluates its omit-tag expression; with `default` it does, once
+    orp = {'tag': 'div', 'close_indent': 0, 'children': [
+        'A', {'tag': 'p', 'omit': L(0), 'replace': ['text', {'pipe': [L(1), py('default')]}], 'children': ['x']}, 'B']}
+    jobs.append({'prog': orp, 'vars': [[0, 'out', 0], [1, 'out', 1], [0, 'lbool', 0]], 'label': 'omit-and-replace'})
     # names: template variable before builtin; attribute access falls back to item lookup
     names = {'tag': 'div', 'close_indent': 0, 'children': [
         'A', {'tag': 'p', 'children': [{'interp': py("rec('n', len) if len == 5 else rec('b', len('ab'))")}]},
